@@ -9,6 +9,7 @@ import (
 
 	"verif/internal/back"
 	"verif/internal/gen"
+	"verif/internal/model"
 	"verif/internal/ref"
 	"verif/internal/run"
 	"verif/internal/zoo"
@@ -194,7 +195,99 @@ func runC11(c *run.Ctx) {
 		}
 		c.Eval("zoo|"+text+fmt.Sprint(hist), true)
 	}
+	steps += c11Menagerie(c)
 	c.Set("resolve_calls_compared", steps)
+}
+
+// c11Menagerie: one fragment on an interface, spread by several operations of one document under different concrete
+// types (whose fields are covariant), resolved in random order on ONE parsed executable: anything the first resolution
+// leaves behind on the shared request nodes (container type, field definition) shows up as a difference from a fresh parse.
+func c11Menagerie(c *run.Ctx) int {
+	n := c.N(120, 6000)
+	steps := 0
+	for i := 0; i < n && !c.TooMany(); i++ {
+		r := c.Rand(900000 + i)
+		s := gen.Menagerie(r)
+		sdl := s.SDL(model.SDLOpts{})
+		g := gen.Graph(r, s, gen.GraphOpts{NullProb: 4, PerType: 2})
+		h, err := back.Build("reflect", s, sdl, g)
+		if err != nil {
+			c.Violation("c11-schema-rejected", map[string]interface{}{"sdl": sdl, "error": err.Error()})
+			continue
+		}
+		f := func(n string, sels ...model.Sel) *model.Field { return &model.Field{Name: n, Sels: sels} }
+		tn := func() model.Sel { return f("__typename") }
+		cond := func(t string, sels ...model.Sel) model.Sel { return &model.Inline{Cond: t, Sels: sels} }
+		pieces := []model.Sel{
+			f("name"), tn(),
+			f("friend", tn()),
+			f("friend", cond("Cat", f("lives")), cond("Dog", f("barks")), f("name")),
+			f("rival", tn(), f("name")),
+			f("rival", f("friend", tn())),
+			f("pals", tn(), f("friend", tn())),
+		}
+		if s.Type("Dog").Field("tag") != nil && s.Type("Cat").Field("tag") != nil {
+			pieces = append(pieces, cond("Dog", f("tag")), cond("Cat", f("tag")))
+		}
+		var body []model.Sel
+		used := map[string]bool{}
+		for _, pi := range r.Perm(len(pieces))[:2+r.Intn(3)] {
+			p := pieces[pi]
+			k := ""
+			if pf, isF := p.(*model.Field); isF {
+				k = pf.Name
+				if used[k] {
+					pf = &model.Field{Name: pf.Name, Alias: fmt.Sprintf("k%d", pi), Sels: pf.Sels}
+					p = pf
+				}
+				used[k] = true
+			}
+			body = append(body, p)
+		}
+		doc := &model.Doc{Frags: []*model.FragDef{{Name: "F", Cond: "Animal", Sels: body}}}
+		roots := []string{"dog", "cat", "a1", "a2", "pets", "anyPet"}
+		var opNames []string
+		for oi, ri := range r.Perm(len(roots))[:2+r.Intn(3)] {
+			name := fmt.Sprintf("Q%d", oi)
+			opNames = append(opNames, name)
+			doc.Ops = append(doc.Ops, &model.Op{Kind: "query", Name: name, Sels: []model.Sel{f(roots[ri], &model.Spread{Name: "F"})}})
+		}
+		text := doc.Print(model.LayoutN(i))
+		exe, perr := h.Root.ParseExecutableString(text)
+		if perr != nil {
+			c.Violation("c11-parse", map[string]interface{}{"sdl": sdl, "document": text, "error": perr.Error()})
+			continue
+		}
+		printed0 := exeCanonText(exe)
+		var hist []string
+		for j, k := 0, 3+r.Intn(4); j < k; j++ {
+			op := opNames[r.Intn(len(opNames))]
+			hist = append(hist, op)
+			got := resolveExe(h, exe, op, nil)
+			fresh, ferr := h.Root.ParseExecutableString(text)
+			if ferr != nil {
+				break
+			}
+			want := resolveExe(h, fresh, op, nil)
+			steps++
+			c.Count("menagerie_calls_compared", 1)
+			if got.text() != want.text() {
+				c.Violation("c11-stale", map[string]interface{}{"backend": "reflect", "sdl": sdl, "graph": describeGraph(g), "document": text, "history": hist, "step": j,
+					"reused_executable": got.text(), "fresh_parse": want.text()})
+				break
+			}
+			if p := exeCanonText(exe); p != printed0 {
+				c.Violation("c11-printed-form-changed", map[string]interface{}{"document": text, "history": hist, "before": printed0, "after": p})
+				break
+			}
+		}
+		c.Eval("menagerie|"+text+fmt.Sprint(hist), true)
+		c.Bucket("history_length", "menagerie")
+		if i == 0 {
+			c.Sample(map[string]interface{}{"document": text, "history_ops": hist, "backend": "reflect (menagerie)"})
+		}
+	}
+	return steps
 }
 
 func resolveZoo(root *ggql.Root, exe *ggql.Executable, op string, vars map[string]interface{}) string {
